@@ -16,7 +16,8 @@ RULE = (
     "un-normalised generic handed out as ONE stored array object, simple shear returned as int64 arrays with an int64 position) x "
     "fabric(6) x accepted regime(5) x all points within <=1 deviation of the default over (n_grains "
     "{5,2,50}, parameter corner(4), texture(3)); inside each case ALL partitions of the span: k in "
-    "{1,2,5,20} uniform updates and the 7 compositions with <=3 parts on a quarter grid; every "
+    "{1,2,5,20} uniform updates and the 7 compositions with <=3 parts on a quarter grid, the span run "
+    "backwards in time in 1 and 2 updates, and two there-and-back histories; every "
     "returned F is compared with the reference solution, det F with det F0 * exp(int tr L), split "
     "with whole. update_all over the assemblages [ol], [en], [ol,en], [en,ol]. Non-trivial: L != 0 "
     "and [L, F0] != 0 or L depends on t/x; distinct = distinct (case, partition)."
@@ -90,6 +91,11 @@ def partitions(span):
             out.append((f"k{v}", [span / v] * v))
         else:
             out.append(("c" + "".join(map(str, v)), [span * 0.25 * c for c in v]))
+    # intervals that run backwards in time (time_end < time_start), and there-and-back histories
+    out.append(("b1", [-span]))
+    out.append(("b2", [-span / 2] * 2))
+    out.append(("rt11", [span / 2, -span / 2]))
+    out.append(("rt121", [span / 4, -span / 2, span / 4]))
     return out
 
 
@@ -181,6 +187,8 @@ def run_case(key):
         whole = finals.get(f"k1@{span}")
         if whole is not None:
             for tag, (F, N, strain) in finals.items():
+                if tag[0] in "br":
+                    continue  # other end points (compared with the reference solution only)
                 res["clauses"]["split_equals_whole"] = res["clauses"].get("split_equals_whole", 0) + 1
                 b = H.ode_bound(N, strain) + H.ode_bound(1, whole[2])
                 err = float(np.abs(F - whole[0]).max() / max(1.0, np.abs(whole[0]).max()))
